@@ -13,6 +13,8 @@ bound inside, variables under several components, zeros with free indices) and a
 """
 from __future__ import annotations
 
+import itertools
+
 import ufl
 import ufl.classes as C
 from ufl.algorithms.expand_indices import IndexExpander, expand_indices
@@ -87,6 +89,31 @@ def build(run):
     for n in names_open:
         pass_ob("remove_component_tensors", remove_component_tensors, n, get_open(n))
         pass_ob("renumber_indices", renumber_indices, n, get_open(n))
+
+    # ---- Zero carrying two free indices of different dimensions, opposite a non-zero branch; one index summed, one bound by a component tensor.
+    # The renumbering meets the indices in either order (IndexRelabeller.zero must keep each dimension with its index).
+    def zero_two_dims(first_is_small, zero_first, bind_first):
+        def mkz():
+            t = corpus.terminals()
+            import ufl
+            from ufv import elements as E_
+            a3 = ufl.Coefficient(ufl.FunctionSpace(t["msh"], E_.LagrangeElement(t["msh"].ufl_cell(), 1, (3,))))
+            a2, f_ = t["u"], t["f"]
+            p_, q_ = Index(), Index()
+            if first_is_small:
+                dims, nz = {p_: 2, q_: 3}, a3[q_] * a2[p_]
+            else:
+                dims, nz = {p_: 3, q_: 2}, a2[q_] * a3[p_]
+            z = C.Zero((), (p_, q_), dims)
+            cond = ufl.lt(f_, 0)
+            e = ufl.conditional(cond, z, nz) if zero_first else ufl.conditional(cond, nz, z)
+            bound, summed = (p_, q_) if bind_first else (q_, p_)
+            return ufl.as_tensor(C.IndexSum(e, MultiIndex((summed,))), (bound,))
+        return mkz
+    for fs_, zf_, bf_ in itertools.product((True, False), repeat=3):
+        nm_ = f"zero with two free indices of dims (2,3) small_first={fs_} zero_first={zf_} bind_first={bf_}"
+        for pn_, fn_ in (("renumber_indices", renumber_indices), ("expand_indices", expand_indices), ("remove_component_tensors", remove_component_tensors)):
+            pass_ob(pn_, fn_, nm_, zero_two_dims(fs_, zf_, bf_))
 
     # ---- per-handler: IndexReplacer.zero (opaque bodies cannot be substituted into, so only Zero bodies are used here)
     I, J, K = Index(), Index(), Index()
